@@ -395,12 +395,15 @@ func (t *TerminalParamDetails) encode() []byte {
 }
 
 func (p ParamContent[T]) encode(appendFunc func(b []byte, v T) []byte) []byte {
-	if p.Len == 0 {
-		return nil
+	if p.ID == 0 && p.Len == 0 {
+		return nil // 参数不存在
 	}
 	tmp := make([]byte, 5, 9)
 	binary.BigEndian.PutUint32(tmp[0:4], p.ID)
 	tmp[4] = p.Len
+	if p.Len == 0 {
+		return tmp // 长度为0的参数 (例如空字符串) 只有参数头 个数里面是算上它的
+	}
 	return appendFunc(tmp, p.Value)
 }
 
